@@ -80,7 +80,9 @@ Definition del_from_rib (s : rib) (x : route) : rib :=
      new_nlri := nn; new_attr := na;
      pend_w := aset Z.eqb (ridx x) tt (pend_w s);
      seen := if cache_on s then apop Z.eqb (ridx x) (seen s) else seen s;
-     refresh_fams := refresh_fams s; refresh_routes := refresh_routes s; gen := gen s |}.
+     refresh_fams := refresh_fams s;
+     refresh_routes := filter (fun c => negb (ridx c =? ridx x)) (refresh_routes s);
+     gen := gen s |}.
 
 Definition cached (s : rib) (fams : list Z) : list route :=
   filter (fun r => existsb (Z.eqb (rfam r)) fams) (avalues (seen s)).
@@ -122,12 +124,35 @@ Definition papply (t : table) (u : upd) : table :=
   | _ => t
   end.
 
-Record sys := { r : rib; peer : table; intended : table }.
+(* OutgoingRIB.reset(): forget refresh requests, drain updates() and throw the result away; the
+    generator of the lost session is abandoned with it *)
+Definition reset_rib (s : rib) : rib :=
+  {| cache_on := cache_on s; new_nlri := []; new_attr := []; pend_w := []; seen := seen s;
+     refresh_fams := []; refresh_routes := []; gen := [] |}.
+
+(* OutgoingRIB.replace_restart(previous=[], new): every cached route is queued again *)
+Definition requeue_all (s : rib) : rib :=
+  fold_left (fun acc c => add_to_rib acc c true) (avalues (seen s)) s.
+
+(* up: a session is established (the peer table is the table of THAT session);
+   fresh: established and no update generator was created yet in this session; the first one is run
+   with include_withdraw = False (UpdateCollection.messages then leaves the withdraws out) *)
+Record sys := { r : rib; peer : table; intended : table; up : bool; fresh : bool }.
+
+Definition is_wd (u : upd) : bool := match u with UWd _ => true | _ => false end.
+Definition drop_wd (g : list upd) : list upd := filter (fun u => negb (is_wd u)) g.
 
 Inductive op :=
 | Ann (x : route) | AnnForce (x : route) | Wd (x : route)
 | Resend (enhanced : bool) (fams : list Z) | WdAll (fams : list Z)
-| Start | Emit.
+| Start | Emit
+| Drop                 (* session lost: Peer._reset -> neighbor.reset_rib -> OutgoingRIB.reset; the peer forgets everything *)
+| Establish.           (* Peer._main: replace_restart([], []) re-queues the whole cache *)
+
+Definition pending (s : rib) : bool :=
+  negb (match new_nlri s with [] => true | _ => false end)
+  || negb (match refresh_routes s with [] => true | _ => false end)
+  || negb (match pend_w s with [] => true | _ => false end).
 
 Definition set_gen (s : rib) (g : list upd) : rib :=
   {| cache_on := cache_on s; new_nlri := new_nlri s; new_attr := new_attr s; pend_w := pend_w s; seen := seen s;
@@ -138,27 +163,35 @@ Definition remove_fams (t : table) (victims : list route) : table :=
 
 Definition step (s : sys) (o : op) : sys :=
   match o with
-  | Ann x => {| r := add_to_rib (r s) x false; peer := peer s; intended := aset Z.eqb (ridx x) (rval x) (intended s) |}
-  | AnnForce x => {| r := add_to_rib (r s) x true; peer := peer s; intended := aset Z.eqb (ridx x) (rval x) (intended s) |}
-  | Wd x => {| r := del_from_rib (r s) x; peer := peer s; intended := tdel (ridx x) (intended s) |}
-  | Resend e fams => {| r := resend (r s) e fams; peer := peer s; intended := intended s |}
+  | Ann x => {| r := add_to_rib (r s) x false; peer := peer s; intended := aset Z.eqb (ridx x) (rval x) (intended s); up := up s; fresh := fresh s |}
+  | AnnForce x => {| r := add_to_rib (r s) x true; peer := peer s; intended := aset Z.eqb (ridx x) (rval x) (intended s); up := up s; fresh := fresh s |}
+  | Wd x => {| r := del_from_rib (r s) x; peer := peer s; intended := tdel (ridx x) (intended s); up := up s; fresh := fresh s |}
+  | Resend e fams => {| r := resend (r s) e fams; peer := peer s; intended := intended s; up := up s; fresh := fresh s |}
   | WdAll fams => {| r := withdraw_all (r s) fams; peer := peer s;
-                     intended := remove_fams (intended s) (cached (r s) fams) |}
-  | Start => match gen (r s) with
-             | [] => {| r := start (r s); peer := peer s; intended := intended s |}
-             | _ => s            (* the peer loop only creates a generator when the previous one is exhausted *)
-             end
-  | Emit => match gen (r s) with
+                     intended := remove_fams (intended s) (cached (r s) fams); up := up s; fresh := fresh s |}
+  | Start => if up s && pending (r s) then     (* Peer._send_route_updates: only when something is pending *)
+             match gen (r s) with
+             | [] => if fresh s
+                     then {| r := set_gen (start (r s)) (drop_wd (gen (start (r s)))); peer := peer s;
+                             intended := intended s; up := true; fresh := false |}
+                     else {| r := start (r s); peer := peer s; intended := intended s; up := true; fresh := false |}
+             | _ => s            (* a generator is only created when the previous one is exhausted *)
+             end else s
+  | Emit => if up s then
+            match gen (r s) with
             | [] => s
-            | u :: g => {| r := set_gen (r s) g; peer := papply (peer s) u; intended := intended s |}
-            end
+            | u :: g => {| r := set_gen (r s) g; peer := papply (peer s) u; intended := intended s; up := true; fresh := fresh s |}
+            end else s
+  | Drop => {| r := reset_rib (r s); peer := []; intended := intended s; up := false; fresh := false |}
+  | Establish => if up s then s else
+                 {| r := requeue_all (r s); peer := peer s; intended := intended s; up := true; fresh := true |}
   end.
 
 Definition rib0 (cache : bool) : rib :=
   {| cache_on := cache; new_nlri := []; new_attr := []; pend_w := []; seen := [];
      refresh_fams := []; refresh_routes := []; gen := [] |}.
 
-Definition sys0 (cache : bool) : sys := {| r := rib0 cache; peer := []; intended := [] |}.
+Definition sys0 (cache : bool) : sys := {| r := rib0 cache; peer := []; intended := []; up := true; fresh := true |}.
 
 Definition run (ops : list op) (s : sys) : sys := fold_left step ops s.
 
@@ -179,11 +212,6 @@ Definition enc_upd (u : upd) : list Z :=
 
 Definition enc_table (t : table) : list Z := flat_map (fun kv => [fst kv; fst (snd kv); snd (snd kv)]) t.
 
-Definition pending (s : rib) : bool :=
-  negb (match new_nlri s with [] => true | _ => false end)
-  || negb (match refresh_routes s with [] => true | _ => false end)
-  || negb (match pend_w s with [] => true | _ => false end).
-
 (* every time a generator is really started, record what it will yield *)
 Fixpoint observe_gens (ops : list op) (s : sys) : list Z * sys :=
   match ops with
@@ -191,7 +219,7 @@ Fixpoint observe_gens (ops : list op) (s : sys) : list Z * sys :=
   | o :: rest =>
     let s' := step s o in
     let here := match o, gen (r s) with
-                | Start, [] => (-1) :: flat_map enc_upd (gen (r s'))
+                | Start, [] => if up s && pending (r s) then (-1) :: flat_map enc_upd (gen (r s')) else []
                 | _, _ => []
                 end in
     let '(more, fin) := observe_gens rest s' in
